@@ -281,8 +281,12 @@ func c09NearMiss(run *common.Run) {
 				continue
 			}
 			if n == 0 {
-				common.Fatalf("C09 positive control %s/@%s under %s gives %d %s diagnostics (panic=%q errs=%v): the would-be violations are not in the generated program",
-					ctl.site, ctl.kw, cfg.Name, n, c09Categories[ctl.kw], res.Panic, res.Errs)
+				// The control is a guard against a vacuous generator, not a verdict of this property (that a real annotation
+				// is enforced is C01–C05's business). It is recorded and the run goes on: if the analyzers carry state from one
+				// program to the next, the annotation-free programs below are where that shows as a C09 violation.
+				run.Count("nearmiss_positive_controls_silent", 1)
+				run.NotExhaustive(fmt.Sprintf("positive control %s/@%s under %s produced no %s diagnostic: the near-miss programs of that family may be vacuous", ctl.site, ctl.kw, cfg.Name, c09Categories[ctl.kw]))
+				continue
 			}
 			run.Count("nearmiss_positive_controls_fired", 1)
 		}
